@@ -17,7 +17,9 @@ RULE = ("(exhaustive) every sequence of 0<len<=4 (quick) / <=6 (thorough) molecu
         "species, 3-residue species with a repeated residue, 2-residue species, a species reusing another's residue name "
         "with another size, and an unloaded solvent - x every permutation of the loading order of the species present; "
         "(random) Hypothesis: 2..5 random species (1..4 residues, private residue kinds), sequences up to 40 (quick) / "
-        "300, random loaded subset and order, one absent species. Non-trivial = >=2 loaded species interleaved and a "
+        "300, random loaded subset and order, one absent species; (history) operation lists on one System: topologies added "
+        "one by one by path, open file or MoleculeTop between full walks, partial iterations, (negative) indexing, "
+        "slices, refused (absent / already loaded) topologies, judged after every step. Non-trivial = >=2 loaded species interleaved and a "
         "multi-residue instance adjacent to another instance of itself. Distinct = sha1 of the case JSON.")
 ASSUMPTIONS = [
     "'distinct residue signatures': no (residue name, size) kind is shared between species or with the solvent",
@@ -77,34 +79,18 @@ def mol_view(mol):
             np.array(mol.atoms_positions, float).tolist(), list(mol.resids))
 
 
-def check(case):
-    species = {k: [(rn, list(names)) for rn, names in v] for k, v in case["species"].items()}
-    sequence = case["sequence"]
-    order = case["load_order"]
-    gro, itps, records, model = build_files(species, sequence, case["seed"])
-    loaded = set(order)
+def expected_for(model, records, loaded):
     expected = []
     for sp, first, n, rids in model:
         if sp in loaded:
             recs = records[first:first + n]
             expected.append((sp, [r[2] for r in recs], [r[1] for r in recs], [r[3] for r in recs],
                              [list(r[4:7]) for r in recs], rids))
-    label = "sequence %s, loaded %s" % ("".join(sequence) if all(len(s) == 1 for s in sequence) else sequence, order)
-    present = set(sequence)
-    if any(sp not in present for sp in order):
-        # a topology with no matching run is refused (any exception)
-        try:
-            with env.quiet():
-                System(gro, *[itps[sp] for sp in order])
-        except Exception:     # noqa: BLE001
-            return {"nontrivial": False, "classes": ["absent-refused"]}
-        raise PropertyViolation("absent-refused", "%s: loading a topology absent from the file did not raise" % label)
-    if case.get("incremental"):
-        syst = lib("load", System, gro)
-        for sp in order:
-            lib("add_ftop", syst.add_ftop, itps[sp])
-    else:
-        syst = lib("load", System, gro, *[itps[sp] for sp in order])
+    return expected
+
+
+def verify_full(syst, expected, label, seed):
+    """Iteration, len, composition, every index, out-of-range and slices agree with the model."""
     mols = lib("iterate", list, syst)
     got = [mol_view(m) for m in mols]
     if [g[0] for g in got] != [e[0] for e in expected]:
@@ -140,7 +126,7 @@ def check(case):
             raise PropertyViolation("index-range", "%s: System[%d] raised %s, not IndexError" % (label, bad, type(exc).__name__))
         else:
             raise PropertyViolation("index-range", "%s: System[%d] returned a molecule (len %d)" % (label, bad, n))
-    rng = np.random.default_rng(case["seed"] + 1)
+    rng = np.random.default_rng(seed + 1)
     slices = [slice(None), slice(None, None, -1), slice(1, None, 2), slice(-2, None), slice(None, -1)]
     for _ in range(3):
         a, b = (int(v) for v in rng.integers(-n - 2, n + 3, 2))
@@ -151,6 +137,34 @@ def check(case):
         if [mol_view(m) for m in part] != got[sl]:
             raise PropertyViolation("slicing", "%s: System[%r] gives %r, expected %r"
                                     % (label, sl, [m.name for m in part], [g[0] for g in got[sl]]))
+    return got
+
+
+def check(case):
+    species = {k: [(rn, list(names)) for rn, names in v] for k, v in case["species"].items()}
+    sequence = case["sequence"]
+    order = case["load_order"]
+    gro, itps, records, model = build_files(species, sequence, case["seed"])
+    loaded = set(order)
+    expected = expected_for(model, records, loaded)
+    label = "sequence %s, loaded %s" % ("".join(sequence) if all(len(s) == 1 for s in sequence) else sequence, order)
+    present = set(sequence)
+    if any(sp not in present for sp in order):
+        # a topology with no matching run is refused (any exception)
+        try:
+            with env.quiet():
+                System(gro, *[itps[sp] for sp in order])
+        except Exception:     # noqa: BLE001
+            return {"nontrivial": False, "classes": ["absent-refused"]}
+        raise PropertyViolation("absent-refused", "%s: loading a topology absent from the file did not raise" % label)
+    if case.get("incremental"):
+        syst = lib("load", System, gro)
+        for sp in order:
+            lib("add_ftop", syst.add_ftop, itps[sp])
+    else:
+        syst = lib("load", System, gro, *[itps[sp] for sp in order])
+    got = verify_full(syst, expected, label, case["seed"])
+    n = len(expected)
     # loading a topology again finds no unclaimed run: refused, and the system is unchanged
     try:
         with env.quiet():
@@ -250,9 +264,162 @@ def random_case(draw, tier):
             "incremental": draw(st.booleans())}
 
 
+# ------------------------------------------------------------------ histories: topologies added between accesses
+@st.composite
+def history_op(draw):
+    k = draw(st.sampled_from(["load", "load", "walk", "walk", "index", "slice", "partial", "len", "absent", "reload"]))
+    return [k, draw(st.integers(0, 50)), draw(st.integers(-8, 8)), draw(st.sampled_from([-2, -1, 1, 2, 3])),
+            draw(st.sampled_from(["ftop", "moltop", "fileobj"]))]
+
+
+@st.composite
+def history_case(draw, tier):
+    if draw(st.booleans()):
+        species = {k: [[rn, list(names)] for rn, names in v] for k, v in FIXED_SPECIES.items()}
+        names = sorted(species)
+        seq = draw(st.lists(st.sampled_from(names), min_size=2, max_size=9))
+        unloaded = ["W"]
+    else:
+        base = draw(random_case("quick"))
+        species, seq = base["species"], base["sequence"][:30]
+        unloaded = ["W"]
+    present = [s for s in sorted(set(seq)) if s not in unloaded]
+    if not present:
+        seq = seq + [sorted(species)[0]]
+    ops = draw(st.lists(history_op(), min_size=3, max_size=25 if tier == "thorough" else 14))
+    return {"species": species, "sequence": seq, "seed": draw(gen.SEEDS), "ops": ops,
+            "initial": draw(st.integers(0, 2))}
+
+
+def check_history(case):
+    from gaddlemaps.components import MoleculeTop
+    species = {k: [(rn, list(names)) for rn, names in v] for k, v in case["species"].items()}
+    sequence = case["sequence"]
+    gro, itps, records, model = build_files(species, sequence, case["seed"])
+    present = [s for s in sorted(set(sequence)) if s not in UNLOADED]
+    absent = [s for s in sorted(species) if s not in sequence and s not in UNLOADED]
+    rng = np.random.default_rng(case["seed"] + 7)
+    pending = [present[i] for i in rng.permutation(len(present))]
+    loaded = []
+    first = pending[:min(case["initial"], len(pending))]
+    syst = lib("load", System, gro, *[itps[sp] for sp in first])
+    loaded += first
+    pending = pending[len(first):]
+    handles = []
+    walked_then_loaded = False
+    walked = False
+    nloads_after_walk = 0
+
+    def label():
+        return "sequence %r, loaded so far %r" % (sequence if len(sequence) < 12 else sequence[:12] + ["..."], loaded)
+
+    def light(step, what):
+        exp = expected_for(model, records, set(loaded))
+        if lib("len", len, syst) != len(exp):
+            raise PropertyViolation("history-len", "%s, step %d (%s): len()=%d, %d instances of the loaded species"
+                                    % (label(), step, what, len(syst), len(exp)))
+        comp = {k: v for k, v in dict(syst.composition).items() if v}
+        ec = {}
+        for e in exp:
+            ec[e[0]] = ec.get(e[0], 0) + 1
+        if comp != ec:
+            raise PropertyViolation("history-composition", "%s, step %d (%s): composition %r, expected %r"
+                                    % (label(), step, what, comp, ec))
+        return exp
+
+    try:
+        for step, (kind, a, b, c, how) in enumerate(case["ops"]):
+            if kind == "load":
+                if not pending:
+                    continue
+                sp = pending.pop(a % len(pending))
+                if how == "ftop":
+                    lib("add_ftop", syst.add_ftop, itps[sp])
+                elif how == "fileobj":
+                    fh = open(itps[sp])
+                    handles.append(fh)
+                    lib("add_ftop", syst.add_ftop, fh)
+                else:
+                    top = lib("moleculetop", MoleculeTop, itps[sp])
+                    lib("add_molecule_top", syst.add_molecule_top, top)
+                loaded.append(sp)
+                if walked:
+                    walked_then_loaded = True
+                light(step, "after loading " + sp)
+                continue
+            exp = light(step, kind)
+            n = len(exp)
+            if kind == "walk":
+                got = [mol_view(m) for m in lib("iterate", list, syst)]
+                if got != [tuple(e) for e in exp]:
+                    raise PropertyViolation("history-iterate", "%s, step %d: iteration yields %r, the file has %r"
+                                            % (label(), step, [g[0] for g in got], [e[0] for e in exp]),
+                                            cls="history-iterate")
+                walked = True
+            elif kind == "index":
+                if not n:
+                    continue
+                i = (a % (2 * n)) - n
+                m = lib("index", syst.__getitem__, i)
+                if mol_view(m) != tuple(exp[i]):
+                    raise PropertyViolation("history-index", "%s, step %d: System[%d] is %s with atoms %r, expected %s "
+                                            "with atoms %r" % (label(), step, i, m.name, list(m.atoms_ids)[:3],
+                                                               exp[i][0], exp[i][3][:3]), cls="history-index")
+                walked |= i < 0
+            elif kind == "slice":
+                sl = slice(None if a % 3 == 0 else b, None if a % 5 == 0 else (a % (n + 3)) - 1, c)
+                part = [mol_view(m) for m in lib("slice", syst.__getitem__, sl)]
+                if part != [tuple(e) for e in exp[sl]]:
+                    raise PropertyViolation("history-slice", "%s, step %d: System[%r] gives %r, expected %r"
+                                            % (label(), step, sl, [g[0] for g in part], [e[0] for e in exp[sl]]),
+                                            cls="history-slice")
+                walked = True
+            elif kind == "partial":
+                it = iter(syst)
+                for k in range(min(n, 1 + a % 4)):
+                    with env.quiet():
+                        m = next(it)
+                    if mol_view(m) != tuple(exp[k]):
+                        raise PropertyViolation("history-iterate", "%s, step %d: molecule %d of a partial iteration is %s, "
+                                                "expected %s" % (label(), step, k, m.name, exp[k][0]), cls="history-iterate")
+            elif kind in ("absent", "reload"):
+                pool = absent if kind == "absent" else loaded
+                if not pool:
+                    continue
+                sp = pool[a % len(pool)]
+                try:
+                    with env.quiet():
+                        if how == "moltop":
+                            syst.add_molecule_top(MoleculeTop(itps[sp]))
+                        else:
+                            syst.add_ftop(itps[sp])
+                except Exception:     # noqa: BLE001
+                    pass
+                else:
+                    raise PropertyViolation("history-refused", "%s, step %d: adding %s (%s) did not raise"
+                                            % (label(), step, sp, "absent from the file" if kind == "absent" else
+                                               "already loaded, no unclaimed run"))
+                light(step, "after a refused topology")
+        exp = expected_for(model, records, set(loaded))
+        if loaded:
+            verify_full(syst, exp, label(), case["seed"])
+        elif len(syst) != 0 or list(syst):
+            raise PropertyViolation("history-len", "a System without topologies is not empty")
+    finally:
+        for fh in handles:
+            fh.close()
+    return {"nontrivial": walked_then_loaded and len(loaded) >= 2,
+            "classes": ["walk-then-load" if walked_then_loaded else "no-walk-before-load", "loaded:%d" % min(len(loaded), 4),
+                        "initial:%d" % len(first)],
+            "sample": {"sequence": sequence[:12], "ops": [o[:2] + o[4:] for o in case["ops"][:12]]}}
+
+
 SUBCHECKS = [
     Sub("exhaustive", check, enumerate=exhaustive,
         note="all sequences up to 4 (quick) / 6 (thorough) molecules over 5 species x all load orders"),
     Sub("random", check, strategy=lambda tier: random_case(tier), quick=400, thorough=6000,
         min_share={"interleaved": 0.15}),
+    Sub("history", check_history, strategy=lambda tier: history_case(tier), quick=600, thorough=8000,
+        min_share={"walk-then-load": 0.2},
+        note="topologies added one by one (add_ftop with a path or an open file, add_molecule_top) between accesses"),
 ]
